@@ -527,7 +527,7 @@ def add_mutations(case, mrng):
     '''seeded: put in-place work (and sometimes a second copy of stored content) into a random history'''
     ops = case['ops']
     updates = [op for op in ops if op[0] == 'update']
-    if updates and mrng.random() < 0.4:
+    if updates and mrng.random() < 0.25:
         u = mrng.choice(updates)
         # byte-identical content for another target / author / run
         ops.insert(mrng.randrange(ops.index(u) + 1, len(ops) + 1), ['update', mrng.randrange(2), mrng.randrange(2), mrng.choice(RUNS), list(u[4]), list(u[5])])
